@@ -147,3 +147,16 @@ chk("C10", "exploration",
     "Trusted: hand-copied record of the built-in systems' definitions and the EM pairing table; UnitsNotReducible is always "
     "accepted; scales beyond 1e+-60 excluded.",
     "exhaustive (system, unit) enumeration + Hypothesis-generated unit systems with construction-record oracle", "DESIGN.md §3 C10")
+chk("C19", "exploration",
+    "Closeness helpers: Hypothesis cases in 6 unit families with values constructed at theta x tolerance from the acceptance "
+    "boundary (theta in 0, .5, .99, 1.01, 2, 50), rtol bare / dimensionless quantity / percent / dimensional, atol zero / bare / in "
+    "desired's unit / in another commensurable unit / incommensurable, scalar / array / list-of-quantities operands, each verdict "
+    "recomputed on SI magnitudes with the statement's semantics and re-checked after re-expressing actual, desired and atol in "
+    "other units; incommensurable pairs must be refused by allclose_units, assert_allclose_units, np.allclose, np.isclose, "
+    "np.array_equal; array_equal / array_equiv / assert_array_equal_units must reject physically equal but differently spelled "
+    "operands. Decorators: exhaustive over every dimension in unyt.dimensions x SI/CGS/imperial/galactic spellings x 17 accepts "
+    "usages and 4 returns usages with an instrumented wrapped function (call counter, identity of the returned object).",
+    "Trusted: the SI scale of each of the 25 unit spellings is read from the library (cross-checked at 1e-5 against the "
+    "independent table) so that the helpers' logic, not the table's accuracy, is judged. NumPy spellings only with atol=0; "
+    "dimensionless operands excluded from the NumPy spellings (they adopt the other operand's unit by the library's tested contract).",
+    "boundary-constructed Hypothesis cases with SI verdict oracle + metamorphic re-expression; exhaustive decorator usage matrix", "DESIGN.md §3 C19")
